@@ -30,7 +30,7 @@ META = dict(
                'writer._to_tdms_value', 'writer.to_int_property_value', 'writer._path_ordering_key', 'types.String.__init__',
                'types.StructType.__init__'],
     bounds=dict(quick='1-2 sessions x 1-2 segments, 12 object-list templates, arrays of 0-2 values, symbolic strings of 1-2 characters, '
-                      'symbolic integers in [-2^63, 2^64)', thorough='same with 3 segments per session'),
+                      'symbolic integers in [-2^63, 2^64)', thorough='same with 3 segments per session (triples with at most one symbolic-string template)'),
     outside=['longer programs / arrays', 'files given as paths (streams only)', 'values inside numeric arrays'],
     stubs=['SinkStream (write-only, fileno unsupported like BytesIO)', 'struct.pack model', 'SymStr.encode: UTF-8 with a fork per '
            'byte-length class'],
@@ -42,7 +42,7 @@ META = dict(
 )
 
 TEMPLATES = ['one-chan', 'full', 'two-groups', 'group-only', 'str-chan', 'empty', 'root-only', 'list-int', 'dt-chan', 'str-props',
-             'chan-then-group', 'two-chans', 'rejected']
+             'chan-then-group', 'two-chans', 'rejected', 'odd-names']
 TAGS = wr.NP_TAGS + ['datetime64', 'str']
 
 
@@ -77,6 +77,9 @@ def template(name, choose, idx, free=True):
         return [['group', 'g', [['s1', 'symstr:2'], ['s2', 'str']]], ['chan', 'g', 'a6', 'str', 2, [['s3', 'symstr:1']]]]
     if name == 'chan-then-group':
         return [['chan', 'g', 'a7', 'int32', 1, []], ['group', 'g', [['late', 'int:-2147483649']]], ['root', []]]
+    if name == 'odd-names':
+        # empty channel / group names, quotes and slashes; the group objects are auto-added by the writer
+        return [['chan', 'g', '', 'int32', 1, []], ['chan', '', "it's/a", 'int16', 2, []], ['chan', 'g', 'z9', 'uint8', 1, []]]
     if name == 'rejected':
         return [['chan', 'g2', 'r9', 'int32', 1, [['bad', 'unsupported']]]]
     if name == 'two-chans':
@@ -108,6 +111,8 @@ def tasks(tier, seed):
         ts.append(dict(kind='paths', segs=segs, sessions=[segs], versions=[4712], index=True))
     if tier == 'thorough':
         for a, b, c in [(x, y, z) for x in TEMPLATES[:6] for y in TEMPLATES[4:9] for z in TEMPLATES[::3]]:
+            if sum(x.startswith('str-') for x in (a, b, c)) > 1:
+                continue            # three calls with two symbolic-string templates exceed the per-task budget (pairs cover them)
             ts.append(dict(sessions=[[a, b, c]], versions=[4712], index=True))
     return ts
 
